@@ -207,6 +207,57 @@ def _strict_rows(model, rep, f, facts, where):
     rep.ob('R15.2', f.key, f.where(s), ok, det, statement='O12')
 
 
+def check_blocks(model, rep):
+    """R15.9: assemble_block_csr re-bases the column indices of every block by the widths of the blocks to its left and splices the
+    row pointers, then hands the concatenation to the gateway.  After re-basing, an index beyond a block's own width is a valid
+    index of the neighbouring block, and the splice drops each block's first row pointer - so the gateway cannot see either:
+    the per-block obligations must be established (raise) before the block's data is used."""
+    f = model.func('matrix:assemble_block_csr')
+    loops = [l for l in ast.walk(f.node) if isinstance(l, ast.For) and isinstance(l.target, ast.Tuple) and len(l.target.elts) == 4 and all(isinstance(e, ast.Name) for e in l.target.elts)]
+    if len(loops) != 1:
+        raise AnalysisError('assemble_block_csr: the loop over (values, rowptr, colidx, ncols) blocks was not found')
+    loop = loops[0]
+    v, r, c, n = (e.id for e in loop.target.elts)
+    # first use of the block's data: the statement that re-bases the column indices or stores the block
+    def uses(s):
+        return isinstance(s, (ast.Expr, ast.Assign, ast.AugAssign)) and not isinstance(s, ast.If) and any(isinstance(x, ast.BinOp) and isinstance(x.op, ast.Add) and c in {y.id for y in ast.walk(x) if isinstance(y, ast.Name)} for x in ast.walk(s))
+    fake = ast.FunctionDef(name='_block_loop_body', args=ast.arguments(posonlyargs=[], args=[], kwonlyargs=[], kw_defaults=[], defaults=[]), body=loop.body, decorator_list=[], lineno=loop.lineno)
+    facts = facts_at(fake, uses)
+    # expand chained comparisons a == b == c into their adjacent pairs
+    pairs = []
+    for node, val in facts.facts.values():
+        inner = strip_all(node) if val else None
+        e = inner if inner is not None else node
+        if isinstance(e, ast.Compare) and (val or len(e.ops) == 1):
+            terms = [e.left] + list(e.comparators)
+            for a, op, b in zip(terms, e.ops, terms[1:]):
+                cmp1 = ast.Compare(left=a, ops=[op], comparators=[b])
+                cc = as_compare(cmp1, val if len(e.ops) == 1 else True)
+                if cc is not None:
+                    pairs.append((cc, inner is not None, node))
+
+    def has(lhs, op, rhs, elementwise=False):
+        flip = {'<': '>', '>': '<', '<=': '>=', '>=': '<=', '==': '==', '!=': '!='}
+        for (a, o, b), elem, node in pairs:
+            if elem == elementwise and ((a, o, b) == (lhs, op, rhs) or (b, flip.get(o), a) == (lhs, op, rhs)):
+                return node
+        return None
+    raising = set(facts.raising.values())
+    obs = [
+        ('B1', 'the block row pointers start at 0 (the splice drops the first pointer)', has(f'{r}[0]', '==', '0')),
+        ('B2', 'the block row pointers end at the number of block values', has(f'{r}[-1]', '==', f'len({v})')),
+        ('B3', 'every block column index is below the block width (beyond it lies the neighbouring block)', has(c, '<', n, True) or has(f'{c}.max()', '<', n) or has(f'max({c})', '<', n)),
+        ('B4', 'every block column index is non-negative', has(c, '>=', '0', True) or has(c, '>', '-1', True) or has(f'{c}.min()', '>=', '0') or has(f'min({c})', '>=', '0')),
+    ]
+    for oid, text, node in obs:
+        ok = node is not None
+        exc = facts.raising.get(src(node)) if ok else None
+        if ok and exc is not None and exc != 'MatrixError':
+            ok = False
+        rep.ob('R15.9', f.key, f.where(node) if node is not None else f.where(loop), ok, f'{oid} {text}: guard `{src(node)[:70]}` precedes the use of the block' if ok else
+               f'{oid} not established per block: {text}; assemble_csr only sees the concatenation, in which the defect is no longer visible, so the input is silently altered instead of rejected', statement=oid)
+
+
 CONSTRUCTORS = ['assemble_coo', 'assemble', 'assemble_block_csr', 'fromsparse', 'empty', 'diag', 'eye']
 
 
@@ -636,9 +687,11 @@ def run(model, rep, tier):
     rep.rule('R15.5', 'MKL one-based index discipline (index-base typing)')
     rep.rule('R15.6', 'derived operators and caches of the Matrix base class')
     rep.rule('R15.7', 'matrix-array product contracts the first operand axis for any operand dimension')
+    rep.rule('R15.9', 'assemble_block_csr establishes the per-block CSR obligations before re-basing and splicing')
     rep.rule('R15.8', 'COO row compression rejects unsorted / out-of-range rows for every integer dtype')
     check_validation(model, rep)
     check_gateway(model, rep)
+    check_blocks(model, rep)
     check_siblings(model, rep)
     check_arity(model, rep)
     check_base_operators(model, rep)
